@@ -227,6 +227,9 @@ func (p *Program) Eval() Expected {
 				if o.WGDep {
 					trip += it.WGID[0] & 1
 				}
+				if o.WaveDep > 0 && firstLID[i]>>6 == 0 {
+					trip += uint32(o.WaveDep)
+				}
 				acc := vals[o.A][i]
 				for c := uint32(0); c < trip; c++ {
 					acc = EvalBin(o.Op, vals[o.B][i], acc)
